@@ -100,7 +100,8 @@ DetectPlatform == pc = "DetectPlatform" /\ PlatformStep("DetectT1")
 DetectT1 == pc = "DetectT1" /\ TargetStep("t_os", "DetectT2")
 DetectT2 == pc = "DetectT2" /\ TargetStep("t_arch", "DetectT2v")
 \* the variant is optional; a value that cannot be represented is a reported error (C06)
-VariantStep(next) == \/ \E v \in {"set", "unset"} : Go(next, "t_variant", v)
+\* ("empty": the platform set the variable to the empty string; that is a value, not absence)
+VariantStep(next) == \/ \E v \in {"set", "unset", "empty"} : Go(next, "t_variant", v)
                      \/ Fail("t_variant", "nonutf8")
 DetectT2v == pc = "DetectT2v" /\ VariantStep("DetectT3")
 DetectT3 == pc = "DetectT3" /\ TargetStep("t_dname", "DetectT4")
